@@ -24,7 +24,8 @@ func (p *LastUsedPoller) SetMultiTransport(tr *Transport) {
 // Get は次のTransportIDを返します。
 func (p *LastUsedPoller) Get() transport.TransportID {
 	if p.tr == nil {
-		return p.tr.currentTransportID
+		// not attached to a multi transport yet: nothing to select.
+		return ""
 	}
 	p.tr.lastReadTransportIDmu.RLock()
 	defer p.tr.lastReadTransportIDmu.RUnlock()
